@@ -26,6 +26,8 @@ type VerifSession struct {
 	Threshold    uint32
 	Participants []uint64
 	Contributed  []uint64
+	// Age is the time since the generation's timeout clock was started.
+	Age time.Duration
 }
 
 // VerifAdvanceClock makes every in-progress generation appear to have started d earlier.
@@ -43,7 +45,7 @@ func (s *Service) VerifSessions() []VerifSession {
 	defer s.generationsMu.RUnlock()
 	res := make([]VerifSession, 0, len(s.generations))
 	for _, g := range s.generations {
-		sess := VerifSession{Account: g.account, Threshold: g.threshold}
+		sess := VerifSession{Account: g.account, Threshold: g.threshold, Age: time.Since(g.processStarted)}
 		for _, p := range g.participants {
 			sess.Participants = append(sess.Participants, p.ID)
 		}
